@@ -216,7 +216,12 @@ impl<F: Float + SampleUniform + std::fmt::Debug, T: Hash, H: Hasher + Default>
             self.p.swap(j, k);
             //
             // update hsketch and counters
-            let rpj = r + (F::from(j).unwrap());
+            let mut rpj = r + (F::from(j).unwrap());
+            // r + j can round up to j + 1 (often with f32): keep the value in [j, j+1) as the counters b assume
+            let jp1 = F::from(j + 1).unwrap();
+            if rpj >= jp1 {
+                rpj = jp1 - jp1 * F::epsilon();
+            }
             if rpj < self.hsketch[self.p[j]] {
                 // update of signature of rank j
                 let j_2 = cmp::min(self.hsketch[self.p[j]].to_usize().unwrap(), m - 1);
